@@ -143,6 +143,8 @@ pub struct ProfileResult {
 
 pub fn run_profile(a: &RunArgs, profile: &str, exe: &str, replay_dir: &str) -> ProfileResult {
     let t0 = Instant::now();
+    // workers inherit it; the supervisor needs the same view of the job layout
+    std::env::set_var("ASESIM_PROFILE", profile);
     let ctx = Ctx::new(a.seed, a.tier);
     let njobs = props::num_jobs(&ctx, &a.prop);
     let w = a.workers.max(1).min(njobs.max(1) as usize);
